@@ -31,6 +31,9 @@ def violators (e : Env) (s : State) : List (String × String × List String) :=
     ("C16", "oneInFlight", s.metas.filterMap (fun m =>
         let open_ := s.orders.filter (fun o => o.dataId = m.dataId && o.status ≠ OrderCompleted)
         if (if m.status = MetaComplete then open_.isEmpty else open_.map (·.id) = [m.orderId]) then none else some s!"meta-order{m.orderId}")),
+    ("C16", "commitIsLatest", s.metas.filterMap (fun m =>
+        if m.status ≠ MetaComplete || m.commits.isEmpty || some m.commit = (m.commits.getLast?.map commitFromVersion) then none
+        else some s!"meta{m.dataId.take 8}")),
     ("C20", "superInv", s.nodes.filterMap (fun n => if n.role = 0 || superPredicate s n then none else some s!"node{n.creator}")),
     ("C11", "modelOutlivesShards", s.shards.filterMap (fun sh => if sh.status ≠ ShardCompleted || (addU64 sh.createdAt sh.duration : Int) ≤ s.h ||
         (match s.getOrder sh.orderId with | some o => (s.getMeta o.dataId).isSome | none => true) then none else some s!"shard{sh.id}")),
@@ -42,7 +45,8 @@ def violators (e : Env) (s : State) : List (String × String × List String) :=
     ("C17", "sidPayAddrBound", if sidPayAddrBound s.did then [] else ["did"]),
     ("C17", "keyPayAddrSelf", if keyPayAddrSelf s.did then [] else ["did"]),
     ("C06", "solventOrder", if solventOrder e s then [] else ["order-escrow"]),
-    ("C06", "solventNode", if solventNode e s then [] else ["node-escrow"]) ]
+    ("C06", "solventNode", if solventNode e s then [] else ["node-escrow"]),
+    ("C06", "solventNodeByShards", if solventNodeByShards e s then [] else ["node-escrow"]) ]
 
 def isBlockEnd : Op → Bool
   | .end_ => true
@@ -295,6 +299,78 @@ def checkStep (e : Env) (pre : Sys) (op : Op) (res : Res) (post : Sys) : List (S
     let wasStuck := fun (o : Order) => unfinished pre.st o && !(pre.st.timeoutQ.any (fun e => (e.1 : Int) ≥ pre.st.h && e.2.contains o.id))
     (stuck.filter (fun o => !wasStuck o)).map (fun o =>
       ("C12", s!"clause=timeoutPending cls={if addU64 (toU64 post.st.h) o.timeout ≥ addU64 o.createdAt o.duration then "near-end-of-life" else "none"} rec=order{o.id}"))
+   else []) ++
+  -- C12: an order examined by the timeout handler in this block leaves the schedule only when it
+  -- is gone or every replica it is still paid for is stored
+  (if isBlockEnd op && res = .ok then
+    let examined := (Map.find? pre.st.timeoutQ post.st.h.toNat).getD []
+    examined.eraseDups.filterMap (fun id =>
+      match post.st.getOrder id with
+      | none => none
+      | some o =>
+        if post.st.timeoutQ.any (fun e => (e.1 : Int) > post.st.h && e.2.contains id) then none else
+        let stored := (o.shards.filterMap post.st.getShard).filter (fun sh => sh.status = ShardCompleted)
+        if (stored.length : Int) ≥ o.replica then none
+        else some ("C12", s!"clause=leftScheduleUnstored cls=none rec=order{id}:replica={o.replica},stored={stored.length}"))
+   else []) ++
+  -- C07: the collateral recorded for a live shard is only ever raised (renewal top-up); what is
+  -- released at its end is what was taken
+  (if res = .ok then
+    pre.st.shards.filterMap (fun sh =>
+      match post.st.getShard sh.id with
+      | some sh' => if sh.status = ShardCompleted && sh'.status = ShardCompleted && sh'.pledge < sh.pledge
+                    then some ("C07", s!"clause=shardCollateralKept cls=none rec=shard{sh.id}:{sh.pledge}->{sh'.pledge}") else none
+      | none => none)
+   else []) ++
+  -- C08: coins are created only by the begin blocker, at most the configured reward of the current
+  -- halving age, and the cumulative reward counter grows by exactly what was minted
+  (let minted := post.st.supply - pre.st.supply
+   match op with
+   | .begin_ =>
+     if res ≠ .ok || minted = 0 then [] else
+     (match pre.st.pool with
+      | none => [("C08", s!"clause=mintWithinSchedule cls=none rec=no-pool:{minted}")]
+      | some pool =>
+        (match getRewardAge pool with
+         | .ok age =>
+           if pool.totalPledged ≠ 0 && 0 < minted && minted ≤ ((pre.st.params.blockReward.toNat >>> age : Nat) : Int) then []
+           else [("C08", s!"clause=mintWithinSchedule cls=none rec=minted={minted},cap={pre.st.params.blockReward.toNat >>> age}")]
+         | .error _ => [("C08", s!"clause=mintWithinSchedule cls=none rec=no-age:{minted}")]) ++
+        (match post.st.pool with
+         | some pool' => if pool'.totalReward - pool.totalReward = minted then [] else [("C08", s!"clause=rewardCounter cls=none rec=minted={minted},counted={pool'.totalReward - pool.totalReward}")]
+         | none => [("C08", "clause=rewardCounter cls=none rec=pool-gone")]))
+   | .genesis => []
+   | _ => if minted ≠ 0 then [("C08", s!"clause=mintOutsideBegin cls=none rec={minted}")] else []) ++
+  -- C15: providers newly given a shard of an order are distinct from one another and from every
+  -- provider that already holds or timed out on a shard of it, were eligible when chosen, and are
+  -- not more than requested
+  (if res = .ok then
+    let newShards := post.st.shards.filter (fun sh => (pre.st.getShard sh.id).isNone)
+    let chosenBySelection := match op with
+      | .store _ => true
+      | .end_ => true
+      | _ => false
+    if !chosenBySelection then [] else
+    (newShards.map (·.orderId)).eraseDups.flatMap (fun oid =>
+      let mine := newShards.filter (·.orderId = oid)
+      let sps := mine.map (·.sp)
+      let old := (pre.st.shards.filter (fun sh => sh.orderId = oid)).map (·.sp)
+      let dup := !(sps.eraseDups.length = sps.length) || sps.any (fun a => old.contains a)
+      let requested : Int := match op with
+        | .store m => m.p.replica
+        | _ => ((pre.st.shards.filter (fun sh => sh.orderId = oid && sh.status = ShardWaiting)).length : Int)
+      let over := (mine.length : Int) > requested
+      -- an update of stored data first re-uses the providers that already hold it: those are not newly chosen
+      let holders : List Addr := match op with
+        | .store m => (findSPByDataId pre.st m.p.dataId).map (·.creator)
+        | _ => []
+      let inel := (mine.filter (fun sh => !holders.contains sh.sp)).filter (fun sh =>
+        match pre.st.getNode sh.sp, pre.st.getPledge sh.sp with
+        | some n, some p => !(ST_SELECT &&& n.status = ST_SELECT && n.reputation ≥ 8000 && !(p.totalStorage - p.usedStorage < (toI64 sh.size)))
+        | _, _ => true)
+      (if dup then [("C15", s!"clause=placementDistinct cls=none rec=order{oid}:{sps}")] else []) ++
+      (if over then [("C15", s!"clause=placementCount cls=none rec=order{oid}:{mine.length}>{requested}")] else []) ++
+      (if inel ≠ [] then [("C15", s!"clause=placementEligible cls=none rec=order{oid}:{inel.map (·.sp)}")] else []))
    else [])
 
 end SaoVerif.Monitors
